@@ -6198,17 +6198,6 @@ bool SoPlexBase<R>::setIntParam(const IntParam param, const int value, const boo
       _boostedScaler = nullptr;
 #endif
 
-      // with persistent scaling the LP in the solver stays scaled by the scaler selected so far, the unscaled queries go
-      // through _scaler, and a solve scales only an LP that is not scaled: hand the LP back unscaled, so that the queries
-      // keep working and the new selection takes effect in the next solve
-      if(_solver.isScaled() && value != intParam(param))
-      {
-         _solver.unscaleLPandReloadBasis();
-         _isRealLPScaled = false;
-         ++_unscaleCalls;
-      }
-
-
       switch(value)
       {
       case SCALER_OFF:
@@ -6262,6 +6251,16 @@ bool SoPlexBase<R>::setIntParam(const IntParam param, const int value, const boo
 
       default:
          return false;
+      }
+
+      // with persistent scaling the LP in the solver stays scaled by the scaler selected so far, the unscaled queries go
+      // through _scaler, and a solve scales only an LP that is not scaled: hand the LP back unscaled, so that the queries
+      // keep working and the new selection takes effect in the next solve (only once the value is known to be accepted)
+      if(_solver.isScaled() && value != intParam(param))
+      {
+         _solver.unscaleLPandReloadBasis();
+         _isRealLPScaled = false;
+         ++_unscaleCalls;
       }
 
       if(_scaler != nullptr)
